@@ -1077,6 +1077,20 @@ class Interp:
                                src=None if base.src == 'ones' else base.src,
                                note=None if base.note == 'input' else
                                base.note)
+                # clamp at zero:  x[x < 0] = 0  (either spelling of the mask)
+                sl_ = target.slice
+                if isinstance(sl_, ast.Compare) and len(sl_.ops) == 1 and \
+                        v.has_const() and v.c == 0:
+                    l_, r_, op_ = sl_.left, sl_.comparators[0], sl_.ops[0]
+                    nm = target.value.id
+
+                    def _z(x):
+                        return isinstance(x, ast.Constant) and x.value == 0
+                    if (isinstance(l_, ast.Name) and l_.id == nm and _z(r_)
+                            and isinstance(op_, (ast.Lt, ast.LtE))) or \
+                            (isinstance(r_, ast.Name) and r_.id == nm and
+                             _z(l_) and isinstance(op_, (ast.Gt, ast.GtE))):
+                        nb.nonneg = True
                 if base.note == 'zeros' and v.deg is not None and \
                         (base.deg in (None, {}) or base.deg == v.deg):
                     nb.deg = v.deg
